@@ -5,6 +5,75 @@ ACTIVE = [SupvisorsInstanceStates.CHECKING, SupvisorsInstanceStates.CHECKED, Sup
           SupvisorsInstanceStates.FAILED]
 
 
+# ------------------------------------------------------------------------------------------ structural validity
+# Shared predicate (other contract files copy or call it): the four per-instance maps of one Supvisors root have the
+# same domain, are keyed by the identifier of their entries, and the local identifier is one of the keys.
+# Established by the constructors (Context.__init__, SupvisorsStateModes.__init__ iterate over mapper.instances) and
+# preserved by the only mutator of the domains, Context.on_discovery_event (mapper.add_instance + state_modes.add_instance).
+def valid_structure(sv):
+    local = sv.mapper.local_identifier
+    return (local is not None and local in sv.context.instances
+            and forall(str, lambda i: (i in sv.context.instances) == (i in sv.mapper._instances))
+            and forall(str, lambda i: (i in sv.context.instances) == (i in sv.state_modes.instance_state_modes))
+            and forall(str, lambda i: (i in sv.context.instances) == (
+                i in sv.state_modes.instance_state_modes[local].instance_states))
+            and forall(str, lambda i: implies(i in sv.context.instances,
+                                              sv.context.instances[i].supvisors_id.identifier == i
+                                              and sv.context.instances[i].supvisors is sv
+                                              and sv.mapper._instances[i].identifier == i
+                                              and sv.state_modes.instance_state_modes[i].supvisors_id.identifier == i))
+            and sv.context.supvisors is sv and sv.state_modes.supvisors is sv and sv.mapper.supvisors is sv
+            and sv.context.instances is not sv.mapper._instances
+            and sv.context.instances is not sv.state_modes.instance_state_modes
+            and sv.mapper._instances is not sv.state_modes.instance_state_modes)
+
+
+def distinct_entries(sv):
+    """two identifiers never share their status / state-modes objects nor the dict of peer states they publish"""
+    return (forall(str, str, lambda i, j: implies(
+        i != j and i in sv.context.instances and j in sv.context.instances,
+        sv.context.instances[i] is not sv.context.instances[j]
+        and sv.state_modes.instance_state_modes[i] is not sv.state_modes.instance_state_modes[j]
+        and sv.state_modes.instance_state_modes[i].instance_states
+        is not sv.state_modes.instance_state_modes[j].instance_states))
+        and forall(str, lambda i: implies(i in sv.context.instances,
+                                          is_alloc(sv.state_modes.instance_state_modes[i].instance_states)
+                                          and sv.state_modes.instance_state_modes[i].instance_states
+                                          is not sv.context.instances
+                                          and sv.state_modes.instance_state_modes[i].instance_states
+                                          is not sv.mapper._instances
+                                          and sv.state_modes.instance_state_modes[i].instance_states
+                                          is not sv.state_modes.instance_state_modes)))
+
+
+# ------------------------------------------------------------------------------------------ instance state graph
+def graph(old, new):
+    """statement: 'The state reported for a peer only changes along STOPPED, CHECKING, CHECKED, RUNNING, FAILED and
+    back to STOPPED or to ISOLATED as documented; ... ISOLATED is final'  (documented graph:
+    STOPPED->CHECKING->{STOPPED, CHECKED, FAILED, ISOLATED}, CHECKED->{RUNNING, FAILED}, RUNNING->FAILED,
+    FAILED->{STOPPED, ISOLATED}, ISOLATED->nothing)"""
+    S = SupvisorsInstanceStates
+    return ((old == S.STOPPED and new == S.CHECKING)
+            or (old == S.CHECKING and new in (S.STOPPED, S.CHECKED, S.FAILED, S.ISOLATED))
+            or (old == S.CHECKED and new in (S.RUNNING, S.FAILED))
+            or (old == S.RUNNING and new == S.FAILED)
+            or (old == S.FAILED and new in (S.STOPPED, S.ISOLATED)))
+
+
+
+
+# ------------------------------------------------------------------------------------------ detection predicate
+def stamp(old_remote_counter, remote_counter, local_counter):
+    """local counter recorded for a tick of a peer: the local counter current at reception; the peer's own counter for
+    the local instance (code convention local_counter < 0); 0 when the remote counter went backwards (stealth restart)"""
+    return ite(remote_counter < old_remote_counter, 0, ite(local_counter < 0, remote_counter, local_counter))
+
+
+def inactive(state, current, stamped, inactivity_ticks):
+    """statement: 'more than inactivity_ticks local ticks have passed since its last tick was received'"""
+    return state in ACTIVE and current - stamped > inactivity_ticks
+
+
 @contract('instancestatus:SupvisorsInstanceStatus.is_inactive', props=['C07'])
 class IsInactive:
     """statement: 'declared FAILED no later than the first local tick at which more than inactivity_ticks local
@@ -15,6 +84,234 @@ class IsInactive:
         return []
 
     def post_definition(self, local_sequence_counter, result):
-        return result == (self._state in ACTIVE
-                          and local_sequence_counter - self.times.local_sequence_counter
-                          > self.supvisors.options.inactivity_ticks)
+        return result == inactive(self._state, local_sequence_counter, self.times.local_sequence_counter,
+                                  self.supvisors.options.inactivity_ticks)
+
+
+@lemma(props=['C07'], types={'status': 'SupvisorsInstanceStatus', 'old_remote': 'int', 'remote': 'int', 'c0': 'int',
+                             'c': 'int'})
+def accuracy(status, old_remote, remote, c0, c):
+    """statement: 'A peer seen RUNNING whose ticks keep arriving (at least one within any inactivity_ticks consecutive
+    local ticks), that has not restarted ... is never declared FAILED' - over the contracts of SupvisorsTimes.update
+    (the stamp) and is_inactive (the predicate): a tick received at local counter c0 keeps the peer active at every
+    local tick c with c - c0 <= inactivity_ticks."""
+    n = status.supvisors.options.inactivity_ticks
+    assume(remote >= old_remote and c0 >= 0)
+    assume(status.times.local_sequence_counter == stamp(old_remote, remote, c0))
+    assume(c - c0 <= n)
+    return not inactive(status._state, c, status.times.local_sequence_counter, n)
+
+
+@lemma(props=['C07'], types={'status': 'SupvisorsInstanceStatus', 'old_remote': 'int', 'remote': 'int', 'c0': 'int',
+                             'c': 'int'})
+def completeness(status, old_remote, remote, c0, c):
+    """statement: 'A peer that falls silent is declared FAILED no later than the first local tick at which more than
+    inactivity_ticks local ticks have passed since its last tick was received'; a restarted peer (decreasing counter)
+    is treated as silent since local tick 0."""
+    n = status.supvisors.options.inactivity_ticks
+    assume(c0 >= 0 and status._state in ACTIVE)
+    assume(status.times.local_sequence_counter == stamp(old_remote, remote, c0))
+    assume(ite(remote >= old_remote, c - c0 > n, c > n))
+    return inactive(status._state, c, status.times.local_sequence_counter, n)
+
+
+@contract('instancestatus:SupvisorsTimes.update', props=['C07'])
+class TimesUpdate:
+    """statement: 'more than inactivity_ticks local ticks have passed since its last tick was received' - the tick is
+    stamped with the local counter current at reception; 'that has not restarted': a decreasing remote counter
+    (stealth restart) forces the stamp to 0 so that the periodic check declares the peer lost.
+    local_sequence_counter < 0 is the code's convention for 'this is the local instance': the stamp is its own counter."""
+    raises = ()
+
+    def modifies(self):
+        return [field(self, f) for f in ('remote_sequence_counter', 'remote_mtime', 'remote_time',
+                                         'local_sequence_counter', 'local_mtime', 'local_time', 'start_local_mtime')]
+
+    def post_stamp(self, remote_sequence_counter, local_sequence_counter, old):
+        return self.local_sequence_counter == stamp(old.self.remote_sequence_counter, remote_sequence_counter,
+                                                    local_sequence_counter)
+
+    def post_remote(self, remote_sequence_counter, remote_mtime, remote_time):
+        return (self.remote_sequence_counter == remote_sequence_counter and self.remote_mtime == remote_mtime
+                and self.remote_time == remote_time)
+
+
+# ------------------------------------------------------------------------------------------ instance state
+def status_pre(status):
+    """a status of the context of its Supvisors root (shape taken from Context.__init__ / on_discovery_event)"""
+    sv = status.supvisors
+    return (valid_structure(sv) and distinct_entries(sv) and status.supvisors_id.identifier in sv.context.instances
+            and sv.context.instances[status.supvisors_id.identifier] is status)
+
+
+@contract('instancestatus:SupvisorsInstanceStatus.state[setter]', props=['C07', 'C13'])
+class StateSetter:
+    """statement: 'The state reported for a peer only changes along STOPPED, CHECKING, CHECKED, RUNNING, FAILED and back
+    to STOPPED or to ISOLATED as documented; ... ISOLATED is final.'  The setter is the only writer of _state
+    (structural obligation): it refuses every change that is not an edge of the documented graph."""
+    raises = ('InvalidTransition',)
+
+    def modifies(self):
+        sms = self.supvisors.state_modes
+        local = sms.instance_state_modes[self.supvisors.mapper.local_identifier]
+        return [field(self, '_state'), field(self, 'checking_time'),
+                contents(local.instance_states), field(local, 'master_identifier'), field(sms, 'update_mark'),
+                contents(sms.instance_state_modes)]
+
+    def pre_valid(self):
+        return status_pre(self)
+
+    def post_state(self, new_state, old):
+        return self._state == new_state and (old.self._state == new_state or graph(old.self._state, new_state))
+
+    def post_local_view(self, new_state, old):
+        """the state published for the peer is the one just set"""
+        sv = self.supvisors
+        return implies(old.self._state != new_state,
+                       sv.state_modes.instance_state_modes[sv.mapper.local_identifier].instance_states[
+                           self.supvisors_id.identifier] == new_state)
+
+    def post_checking_time(self, new_state, old):
+        """stale handshake notifications are recognised through the date of entry in CHECKING"""
+        return ite(old.self._state != new_state and new_state == SupvisorsInstanceStates.CHECKING,
+                   self.checking_time >= clock(), self.checking_time == old.self.checking_time)
+
+    def post_still_valid(self):
+        return status_pre(self)
+
+    def post_same_state_is_noop(self, new_state, old):
+        return implies(old.self._state == new_state, no_effect())
+
+    def exc_InvalidTransition_refused(self, new_state, old):
+        return (old.self._state != new_state and not graph(old.self._state, new_state)
+                and self._state == old.self._state and no_effect())
+
+
+@contract('context:Context.export_status', props=['C07'])
+class ExportStatus:
+    """publication of one instance status to the listeners: changes nothing"""
+    raises = ()
+    effect = 'export_status'
+
+    def modifies(self, status):
+        return []
+
+
+def invalid_state(ctx, status, fence):
+    """statement: 'it is STOPPED (ISOLATED when auto_fence is set and the Master is in a working state)'; 'a peer that
+    reports the local instance as ISOLATED, or whose ... strategies differ ... is marked ISOLATED' (fence);
+    'the local instance is never ISOLATED'"""
+    sv = ctx.supvisors
+    master = sv.state_modes.instance_state_modes[sv.mapper.local_identifier].master_identifier
+    master_working = (master in sv.state_modes.instance_state_modes
+                      and sv.state_modes.instance_state_modes[master].state in WORKING_STATES)
+    return ite(status.supvisors_id.identifier == sv.mapper.local_identifier, SupvisorsInstanceStates.STOPPED,
+               ite(fence or (sv.options.auto_fence and master_working),
+                   SupvisorsInstanceStates.ISOLATED, SupvisorsInstanceStates.STOPPED))
+
+
+def setter_frame(status):
+    """what a change of instance state may touch (frame of the state setter)"""
+    sms = status.supvisors.state_modes
+    local = sms.instance_state_modes[status.supvisors.mapper.local_identifier]
+    return [field(status, '_state'), field(status, 'checking_time'),
+            contents(local.instance_states), field(local, 'master_identifier'), field(sms, 'update_mark'),
+            contents(sms.instance_state_modes)]
+
+
+@contract('context:Context.invalidate', props=['C07', 'C13'])
+class Invalidate:
+    """statement: 'by the next local tick at the latest it is STOPPED (ISOLATED when auto_fence is set and the Master is
+    in a working state)'; 'the local instance is never ISOLATED'.  Called from FAILED (invalidate_failed) or CHECKING
+    (on_authorization): the only states from which both targets are edges of the graph."""
+    raises = ()
+    types = {'fence': 'Optional[bool]'}
+
+    def modifies(self, status):
+        return setter_frame(status)
+
+    def pre_valid(self, status):
+        return status.supvisors is self.supvisors and self.supvisors.context is self and status_pre(status)
+
+    def pre_from_checking_or_failed(self, status):
+        return status._state in (SupvisorsInstanceStates.CHECKING, SupvisorsInstanceStates.FAILED)
+
+    def post_state(self, status, fence, old):
+        return status._state == invalid_state(old.self, old.status, fence is not None and fence)
+
+    def post_local_never_isolated(self, status):
+        return implies(status.supvisors_id.identifier == self.supvisors.mapper.local_identifier,
+                       status._state != SupvisorsInstanceStates.ISOLATED)
+
+    def post_still_valid(self, status):
+        return status_pre(status)
+
+
+@contract('context:Context.on_instance_failure', props=['C07'])
+class OnInstanceFailure:
+    """statement: 'A peer that falls silent is declared FAILED ... (at once if an XML-RPC to it fails)'.
+    Call site: listener.read_notification with a status accepted by Context.is_valid (any non-ISOLATED state: the
+    failure notification is queued by the proxy thread and may be read after the peer has been invalidated)."""
+    raises = ()
+
+    def modifies(self, status):
+        return setter_frame(status)
+
+    def pre_valid(self, status):
+        return status.supvisors is self.supvisors and self.supvisors.context is self and status_pre(status)
+
+    def pre_not_isolated(self, status):
+        return status._state != SupvisorsInstanceStates.ISOLATED
+
+    def post_failed(self, status):
+        return status._state == SupvisorsInstanceStates.FAILED
+
+
+def timer_state(old_state, seen_it, counter, stamped, n):
+    return ite(seen_it and inactive(old_state, counter, stamped, n), SupvisorsInstanceStates.FAILED, old_state)
+
+
+@contract('context:Context.on_timer_event', props=['C07'])
+class OnTimerEvent:
+    """statement: 'A peer that falls silent is declared FAILED no later than the first local tick at which more than
+    inactivity_ticks local ticks have passed since its last tick was received' and 'A peer ... whose ticks keep arriving
+    ... is never declared FAILED': on the local tick, FAILED is set on exactly the instances with is_inactive(counter);
+    every other instance keeps its state."""
+    raises = ()
+
+    def modifies(self):
+        sms = self.supvisors.state_modes
+        local = sms.instance_state_modes[self.supvisors.mapper.local_identifier]
+        return [whole('F:_state:'), contents(local.instance_states), field(local, 'master_identifier'),
+                field(sms, 'update_mark'), contents(sms.instance_state_modes)]
+
+    def pre_valid(self, event):
+        sv = self.supvisors
+        return sv.context is self and valid_structure(sv) and distinct_entries(sv) and 'sequence_counter' in event
+
+    def post_failed_exactly_the_inactive(self, event, old):
+        sv = self.supvisors
+        return forall(str, lambda i: implies(
+            i in self.instances,
+            self.instances[i]._state == timer_state(old.self.instances[i]._state, True, event['sequence_counter'],
+                                                    self.instances[i].times.local_sequence_counter,
+                                                    sv.options.inactivity_ticks)))
+
+    def post_still_valid(self):
+        return valid_structure(self.supvisors) and distinct_entries(self.supvisors)
+
+    def loop0_inv(self, seen, sequence_counter, event, old):
+        sv = self.supvisors
+        return (sv.context is self and valid_structure(sv) and distinct_entries(sv)
+                and sequence_counter == event['sequence_counter']
+                and forall(str, lambda i: implies(
+                    i in self.instances,
+                    self.instances[i]._state == timer_state(old.self.instances[i]._state, i in seen, sequence_counter,
+                                                            self.instances[i].times.local_sequence_counter,
+                                                            sv.options.inactivity_ticks))))
+
+    def loop0_modifies(self):
+        sms = self.supvisors.state_modes
+        local = sms.instance_state_modes[self.supvisors.mapper.local_identifier]
+        return [whole('F:_state:'), contents(local.instance_states), field(local, 'master_identifier'),
+                field(sms, 'update_mark'), contents(sms.instance_state_modes)]
